@@ -525,6 +525,10 @@ func Mutate(r *rng.R, t *T, c Cfg) *T {
 				if !have {
 					p.Attrs = append(p.Attrs, Attr{k, gen(r, c, 1)})
 					sort.Slice(p.Attrs, func(i, j int) bool { return p.Attrs[i].Name < p.Attrs[j].Name })
+					if r.Bool() { // the added attribute is optional
+						p.Opt = append(p.Opt, k)
+						sort.Strings(p.Opt)
+					}
 					break
 				}
 			}
